@@ -362,6 +362,49 @@ func (g *c03Gen) insertRef(doc map[string]interface{}, path string, name string,
 	return nil, false
 }
 
+// the reference kinds the property names (kept in step with named_rules in coq/theories/Res/C03Facts.v):
+// edges are also drawn from this list, so a row deleted from the table shows up as a reference that does not follow
+var c03NamedRules = [][3]string{
+	{"ConfigMap", "Pod", "spec/volumes/configMap/name"},
+	{"ConfigMap", "Pod", "spec/containers/env/valueFrom/configMapKeyRef/name"},
+	{"ConfigMap", "Pod", "spec/containers/envFrom/configMapRef/name"},
+	{"ConfigMap", "Deployment", "spec/template/spec/volumes/configMap/name"},
+	{"ConfigMap", "Deployment", "spec/template/spec/containers/env/valueFrom/configMapKeyRef/name"},
+	{"ConfigMap", "Deployment", "spec/template/spec/containers/envFrom/configMapRef/name"},
+	{"ConfigMap", "StatefulSet", "spec/template/spec/volumes/configMap/name"},
+	{"ConfigMap", "DaemonSet", "spec/template/spec/volumes/configMap/name"},
+	{"ConfigMap", "Job", "spec/template/spec/volumes/configMap/name"},
+	{"ConfigMap", "CronJob", "spec/jobTemplate/spec/template/spec/volumes/configMap/name"},
+	{"Secret", "Pod", "spec/volumes/secret/secretName"},
+	{"Secret", "Pod", "spec/containers/env/valueFrom/secretKeyRef/name"},
+	{"Secret", "Deployment", "spec/template/spec/volumes/secret/secretName"},
+	{"Secret", "Deployment", "spec/template/spec/containers/envFrom/secretRef/name"},
+	{"Secret", "Deployment", "spec/template/spec/imagePullSecrets/name"},
+	{"Secret", "StatefulSet", "spec/template/spec/volumes/secret/secretName"},
+	{"Secret", "Ingress", "spec/tls/secretName"},
+	{"Secret", "ServiceAccount", "imagePullSecrets/name"},
+	{"Service", "StatefulSet", "spec/serviceName"},
+	{"Service", "Ingress", "spec/rules/http/paths/backend/service/name"},
+	{"Service", "Ingress", "spec/defaultBackend/service/name"},
+	{"ServiceAccount", "Pod", "spec/serviceAccountName"},
+	{"ServiceAccount", "Deployment", "spec/template/spec/serviceAccountName"},
+	{"ServiceAccount", "StatefulSet", "spec/template/spec/serviceAccountName"},
+	{"ServiceAccount", "RoleBinding", "subjects"},
+	{"ServiceAccount", "ClusterRoleBinding", "subjects"},
+	{"PersistentVolumeClaim", "Pod", "spec/volumes/persistentVolumeClaim/claimName"},
+	{"PersistentVolumeClaim", "Deployment", "spec/template/spec/volumes/persistentVolumeClaim/claimName"},
+	{"PersistentVolumeClaim", "StatefulSet", "spec/template/spec/volumes/persistentVolumeClaim/claimName"},
+	{"Role", "RoleBinding", "roleRef/name"},
+	{"ClusterRole", "RoleBinding", "roleRef/name"},
+	{"ClusterRole", "ClusterRoleBinding", "roleRef/name"},
+	{"Deployment", "HorizontalPodAutoscaler", "spec/scaleTargetRef/name"},
+	{"StatefulSet", "HorizontalPodAutoscaler", "spec/scaleTargetRef/name"},
+	{"PersistentVolume", "PersistentVolumeClaim", "spec/volumeName"},
+	{"StorageClass", "PersistentVolumeClaim", "spec/storageClassName"},
+	{"PriorityClass", "Pod", "spec/priorityClassName"},
+	{"IngressClass", "Ingress", "spec/ingressClassName"},
+}
+
 // addEdge creates one reference (a.field -> b) chosen from the run-time rule table.
 func (g *c03Gen) addEdge(b *c03Res, external bool) bool {
 	// rows for the referent's kind (by kind only: a row whose group/version can never match is still a rule
@@ -377,6 +420,19 @@ func (g *c03Gen) addEdge(b *c03Res, external bool) bool {
 	}
 	row := rows[g.rng.Intn(len(rows))]
 	fs := row.Referrers[g.rng.Intn(len(row.Referrers))]
+	if g.rng.Chance(20) {
+		var named [][3]string
+		for _, n := range c03NamedRules {
+			if n[0] == b.Kind {
+				named = append(named, n)
+			}
+		}
+		if len(named) > 0 {
+			n := named[g.rng.Intn(len(named))]
+			fs = types.FieldSpec{Path: n[2]}
+			fs.Kind = n[1]
+		}
+	}
 	if fs.Kind == "" {
 		return false
 	}
@@ -1381,8 +1437,8 @@ func c03GenSynDirected(rng *Rng) c03Syn {
 				kind = "Secret"
 			}
 			cur := uniq("cm")
-			if rng.Chance(25) {
-				cur = pick([]string{"x", "y", "same"})
+			if rng.Chance(35) {
+				cur = pick([]string{"x", "y", "y", "same"})
 			}
 			if usedCur[kind+"/"+cur+"/"+effNs(ns)] {
 				cur = uniq("cm")
@@ -1390,7 +1446,7 @@ func c03GenSynDirected(rng *Rng) c03Syn {
 			usedCur[kind+"/"+cur+"/"+effNs(ns)] = true
 			r.Doc = "apiVersion: v1\nkind: " + kind + "\nmetadata:\n  name: " + cur + "\n" + nsLine(ns)
 			if rng.Chance(88) {
-				names := []string{"x"}
+				names := []string{pick([]string{"x", "x", "y"})}
 				if rng.Chance(40) {
 					names = append(names, pick([]string{"p-x", "y", "x"}))
 				}
